@@ -232,6 +232,14 @@ def producers(prog, cg, strict=True):
                                 escaped = True     # stored somewhere
                         if n2["k"] == "decl" and n2.get("d") == vid and n2.get("c"):
                             defs.append(fn.strip(n2["c"][0]))
+                    # (p ? make_a(..) : make_b(..)): either arm may be the value
+                    flat = []
+                    for d0 in defs:
+                        if fn.nodes[d0]["k"] == "cond":
+                            flat.extend(fn.strip(c) for c in fn.nodes[d0]["c"][1:])
+                        else:
+                            flat.append(d0)
+                    defs = flat
                     if strict:
                         if not escaped and defs and all(fn.nodes[d]["k"] == "call" for d in defs):
                             cands = defs
@@ -1000,4 +1008,114 @@ def run_r8(prog, res):
                         "after unlinking a cell at %s sexp_release_object can go on to unlink another at %s in the same call: "
                         "an object preserved twice and released once loses both registrations and is reclaimed while its "
                         "second owner still uses it" % (fn.where(bad[0]), fn.where(bad[1])), unit=fn.unit.display))
+    return stat
+
+
+# ------------------------------------------------------------------ R9: interior pointer outlives the root
+def run_r9(prog, res, cg, floor=0):
+    """A C pointer into the data of a heap object (`char *s = sexp_string_data(v)`) is only as good as the
+    reference that keeps the object alive.  When the object is a fresh allocation known only through the local
+    `v`, and `v` is overwritten while `s` is still going to be used, the next collection frees the bytes `s`
+    points to.  Reported: definition of s from v's data -> reassignment of v -> call that may allocate ->
+    use of s (also as an argument of that call: string-copying callees allocate first and copy afterwards)."""
+    from cfg import elem_positions, enclosing_elem, reach_without, local_defs
+    from rules import c01i
+    stat = res.stat("C02.R9", "C pointers into the data of a fresh object are not used after the only local that "
+                    "references the object was overwritten and an allocation followed", floor=floor)
+    maygc = cg.reaches_any({"sexp_alloc", "sexp_gc"})
+    prod = producers(prog, cg, strict=False)
+    for fn in prog.all_funcs():
+        if fn.unit.name in ("main.c",) or fn.unit.display.startswith("tests/") or not fn.blocks:
+            continue
+        pos = None
+        for i, nd in enumerate(fn.nodes):
+            vid = rhs = None
+            if nd["k"] == "bin" and nd["o"] == "=":
+                l = fn.strip(nd["c"][0])
+                if fn.nodes[l]["k"] == "ref" and "d" in fn.nodes[l]:
+                    vid, rhs = fn.nodes[l]["d"], nd["c"][1]
+            elif nd["k"] == "decl" and "d" in nd and nd.get("c"):
+                vid, rhs = nd["d"], nd["c"][0]
+            if vid is None or vid in fn.params:
+                continue
+            t = fn.var_type(vid) or ""
+            if "*" not in t or t == "struct sexp_struct *":
+                continue
+            db = c01i.data_base(fn, rhs)
+            if db is None:
+                continue
+            root = fn.strip(db[1])
+            while fn.nodes[root]["k"] == "mem":
+                root = fn.strip(fn.nodes[root]["c"][0])
+            if fn.nodes[root]["k"] != "ref" or "d" not in fn.nodes[root] or fn.nodes[root]["d"] in fn.params:
+                continue
+            v = fn.nodes[root]["d"]
+            if fn.var_type(v) != "struct sexp_struct *":
+                continue
+            pos = pos or elem_positions(fn)
+            pd = enclosing_elem(fn, i, pos)
+            if pd is None:
+                continue
+            vdefs = [(dn, r, enclosing_elem(fn, dn, pos)) for (dn, r) in local_defs(fn, v)]
+            # the object: every definition of v that can reach this point without another one in between is a
+            # fresh producer's result (nothing else references it)
+            vpos = {p for (_d, _r, p) in vdefs if p}
+            reaching = [(dn, r) for (dn, r, p) in vdefs if p and p != pd and reach_without(fn, p, pd, vpos - {p})]
+            if not reaching or not all(r is not None and fn.nodes[fn.strip(r)]["k"] == "call" and
+                                       fn.nodes[fn.strip(r)].get("o") in prod for (_d, r) in reaching):
+                continue
+            stat.sites += 1
+            stat.obligations += 1
+            pdefs = {enclosing_elem(fn, dn, pos) for (dn, _r) in local_defs(fn, vid)} - {pd, None}
+            uses = [j for j, x in enumerate(fn.nodes) if x["k"] == "ref" and x.get("d") == vid and j not in fn.subtree(i)]
+            # the object stays reachable if v was stored somewhere or handed to a call before it is overwritten
+            escapes = set()
+            for j, x in enumerate(fn.nodes):
+                if x["k"] == "bin" and x["o"] == "=":
+                    r = fn.strip(x["c"][1])
+                    if fn.nodes[r]["k"] == "ref" and fn.nodes[r].get("d") == v:
+                        escapes.add(enclosing_elem(fn, j, pos))
+                elif x["k"] == "call":
+                    for a in x["c"][1:]:
+                        a0 = fn.strip(a)
+                        if fn.nodes[a0]["k"] == "ref" and fn.nodes[a0].get("d") == v:
+                            escapes.add(enclosing_elem(fn, j, pos))
+            escapes.discard(None)
+            # ... on some path from a reaching definition of v to here
+            if not any(p and reach_without(fn, p, pd, (vpos - {p}) | escapes)
+                       for (dn0, _r0, p) in vdefs if (dn0, _r0) in reaching):
+                stat.discharged += 1
+                continue
+            hit = None
+            for (dn, _r, k) in vdefs:
+                if k is None or k == pd or not reach_without(fn, pd, k, pdefs | escapes):
+                    continue
+                for c, x in enumerate(fn.nodes):
+                    if x["k"] != "call" or not x.get("o"):
+                        continue
+                    f2 = prog.func(x["o"], fn.unit)
+                    if f2 is None or f2 not in maygc:
+                        continue
+                    pc = enclosing_elem(fn, c, pos)
+                    if pc is None or c in fn.subtree(dn) or not (reach_without(fn, k, pc, pdefs | {pd})):
+                        continue
+                    for u in uses:
+                        pu = enclosing_elem(fn, u, pos)
+                        if u in fn.subtree(c) or (pu and reach_without(fn, pc, pu, pdefs | {pd})):
+                            hit = (dn, c, u)
+                            break
+                    if hit:
+                        break
+                if hit:
+                    break
+            if not hit:
+                stat.discharged += 1
+                continue
+            pn, vn = fn.vars[vid]["n"], fn.vars[v]["n"]
+            res.add(Finding("C02", "R9.interior-pointer-outlives-root", fn.name,
+                            "%s into %s across %s" % (pn, vn, fn.nodes[hit[1]].get("o")), fn.where(i),
+                            "%s takes `%s`, a C pointer into the data of the fresh object held only in `%s`, then overwrites "
+                            "`%s` at %s and calls %s (which may allocate) at %s while `%s` is still used: a collection there "
+                            "frees the bytes `%s` points to" % (fn.name, pn, vn, vn, fn.where(hit[0]), fn.nodes[hit[1]].get("o"),
+                                                                 fn.where(hit[1]), pn, pn), unit=fn.unit.display))
     return stat
